@@ -8,6 +8,7 @@ import (
 	"strings"
 	"unsafe"
 
+	"github.com/krotik/ecal/engine"
 	"github.com/krotik/ecal/interpreter"
 	"github.com/krotik/ecal/parser"
 	"github.com/krotik/ecal/scope"
@@ -216,4 +217,90 @@ func minInt(a, b int) int {
 		return a
 	}
 	return b
+}
+
+// ---------------------------------------------------------------------------
+// The rule index is the other structure every worker reads without a lock
+// (RuleIndex.Match for each event it takes). Sinks are rules without state
+// patterns: k sinks on one wildcard kind sit in one leaf slice whose capacity
+// may exceed its length, next to sinks on exact sibling kinds. Matching must
+// leave the index (spare capacity included) untouched and return exactly the
+// matching sinks, otherwise two workers matching different kinds at the same
+// time run each other's sinks.
+
+func init() {
+	register(&Part{Prop: "C11", Name: "matching-leaves-rule-index-untouched", Quick: 1, Thor: 1,
+		Desc: "sink-like rule sets: k = 0..9 sinks on the wildcard kind test.* (one leaf slice, spare capacity for k = 3, 5-7, 9) x subsets of exact-kind sinks {test.a, test.b, test.a (second), *.a, test} x events test.a / test.b / test.c / other.a matched twice each in every order of two: the result must be exactly the matching sinks and a reflective snapshot of the whole index (unexported fields, spare slice capacity) must not change",
+		Rule: "k x 32 subsets x 12 ordered event pairs; every case non-trivial",
+		Run: func(c *Ctx) {
+			exact := [][]string{{"test", "a"}, {"test", "b"}, {"test", "a"}, {"*", "a"}, {"test"}}
+			events := [][]string{{"test", "a"}, {"test", "b"}, {"test", "c"}, {"other", "a"}}
+			for k := 0; k <= 9; k++ {
+				for mask := 0; mask < 1<<uint(len(exact)); mask++ {
+					if !c.Mine() {
+						continue
+					}
+					idx := engine.NewRuleIndex()
+					var rules []*engine.Rule
+					add := func(name string, kind []string) {
+						r := &engine.Rule{Name: name, KindMatch: []string{strings.Join(kind, ".")}, ScopeMatch: []string{}}
+						rules = append(rules, r)
+						idx.AddRule(r)
+					}
+					for i := 0; i < k; i++ {
+						add(fmt.Sprintf("w%d", i), []string{"test", "*"})
+					}
+					for i, kd := range exact {
+						if mask&(1<<uint(i)) != 0 {
+							add(fmt.Sprintf("x%d", i), kd)
+						}
+					}
+					desc := fmt.Sprintf("%d sinks on test.* + exact sinks mask %05b", k, mask)
+					before := snapshot(idx)
+					for _, e1 := range events {
+						for _, e2 := range events {
+							input := fmt.Sprintf("%s; events %s then %s", desc, strings.Join(e1, "."), strings.Join(e2, "."))
+							c.Begin(input)
+							c.Nontrivial()
+							bad := false
+							for _, kind := range [][]string{e1, e2, e1} {
+								ev := engine.NewEvent("e", kind, nil)
+								var want []string
+								for _, r := range rules {
+									if refRuleMatches(r, kind, nil) {
+										want = append(want, r.Name)
+									}
+								}
+								sort.Strings(want)
+								var got []string
+								if pk, pm := Guard(func() {
+									for _, r := range idx.Match(ev) {
+										got = append(got, r.Name)
+									}
+								}); pk != "" {
+									c.Viol("match-"+pk, input+": "+pm, input)
+									bad = true
+									break
+								}
+								sort.Strings(got)
+								if fmt.Sprint(got) != fmt.Sprint(want) {
+									c.Viol("wrong sinks matched", fmt.Sprintf("%s: event %s matched sinks %v, expected %v", input, strings.Join(kind, "."), got, want), input)
+									bad = true
+									break
+								}
+							}
+							if after := snapshot(idx); after != before {
+								c.Viol("matching writes to the shared rule index", fmt.Sprintf("%s: Match changed the rule index (including spare slice capacity); workers match events concurrently without a lock, so one event can run another event's sinks", input), input)
+								before = after
+								bad = true
+							}
+							if !bad {
+								c.Outcome("index-unchanged")
+							}
+						}
+					}
+				}
+			}
+			c.Sample("3 sinks on test.* + sinks on test.a and test.b; match test.a, test.b, test.a: same sinks, index snapshot unchanged")
+		}})
 }
